@@ -605,6 +605,11 @@ class VSocket:
                 net.gate.connection_point()
             c.out += c.deferred
             del c.deferred[:]
+        if len(c.out) > 0 and net.eagain_every and self.timeout != 0.0:
+            # a spurious wake-up: the read reports EAGAIN although data is on its way (the program is expected to try again)
+            net.eagain_count += 1
+            if net.eagain_count % net.eagain_every == 0:
+                raise BlockingIOError(errno.EAGAIN, 'Resource temporarily unavailable')
         if len(c.out) > 0:
             seg = net.segment
             k = min(n, len(c.out), seg) if seg else min(n, len(c.out))
@@ -728,7 +733,9 @@ class _Clock:
 
 
 class FakeNet:
-    def __init__(self, segment=0, quantum=0.002, client_addr='192.0.2.7'):
+    def __init__(self, segment=0, quantum=0.002, client_addr='192.0.2.7', eagain_every=0):
+        self.eagain_every = eagain_every      # every n-th read that has data waiting reports EAGAIN first
+        self.eagain_count = 0
         self.servers = {}          # (ip, port) -> peer | 'timeout'
         self.resolve = {}          # host -> [(af, ip)] | ('error', errno, msg)
         self.connects = []         # (sock id, family, ip, port, nonblocking)
